@@ -14,6 +14,10 @@ Strings travel as `x<hex bytes>` tokens (one `Char` per byte).
                                    (per-segment lists of an Interfile projection-data header; "-" = key absent)
   hdr image x<text>             -> rej | err | oob | ok <dump of all members>    (InterfileImageHeader().parse, keys in any order)
   hdr multi x<text>             -> rej | err | oob | ok <dump of all members>    (MultipleDataSetHeader().parse)
+  hdr pdfs <known> <max TOF bins> <bin size> <resolution> x<text>
+                                -> rej | err | errmash | erreven | errtof | ok <num_timing_poss> <TOF bins> <mashing factor of the geometry>
+                                   <segments> <views> <bins> <axial positions…>   (InterfilePDFSHeader().parse, keys in any order; the
+                                   four numbers describe the scanner that 'originating system' names)
   po reset                      -> ok                     (empty heap of ParsingObjects; the class = the current key table)
   po new | po copy <i>          -> <id of the new object>
   po assign <i> <j> | po destroy <i>  -> ok
@@ -100,6 +104,15 @@ def hdrAnswer : HdrOutcome → String
     withDump "ok" { p with kmap := p.kmap.filter (fun e => e.key != kPetKeysRegistered && e.key != kImagingModality &&
                                                      e.key != kByteOrder && e.key != kNumberFormat) }
 
+def pdfsAnswer : PdfsOutcome → String
+  | .rejected => "rej"
+  | .error => "err"
+  | .errMash => "errmash"
+  | .errEven => "erreven"
+  | .errTof => "errtof"
+  | .diverges => "hang"
+  | .ok ntp bins mash S V B rings => joinWith " " (["ok", toString ntp, toString bins, toString mash, toString S, toString V, toString B] ++ rings.map toString)
+
 def N (s : String) : Nat := s.toNat?.getD 0
 
 def poAnswer : PAns → String
@@ -139,6 +152,8 @@ def stepLine (p : KP) (line : String) : KP × String :=
   match toks with
   | ["hdr", "image", t] => (p, hdrAnswer (parseImageHeader (unhex t)))
   | ["hdr", "multi", t] => (p, hdrAnswer (parseMultiHeader (unhex t)))
+  | ["hdr", "pdfs", known, gmax, gsize, gres, t] =>
+    (p, pdfsAnswer (parsePdfsHeader { known := known == "1", maxTof := I gmax, sizePos := I gsize, resPos := I gres } (unhex t)))
   | ["std", s] => (p, hex (standardise (unhex s)))
   | ["kw", s] => (p, hex (getKeyword (unhex s)))
   | ["cfg", "reset"] => ({}, "ok")
